@@ -12,7 +12,7 @@ LEVEL = "model_checking"
 ENGINE = "E-SCEN"
 RULE = (
     "every multiset of n reporting units (n in 3..N) over (baseline+1 = w in {10,20,50}) x (counted = {5,12,30,80} * w/10), with four outstanding "
-    "units (baseline+1 in {13,27,50,7}, partial counts 0 / small / huge / 1, so products are fractional), unit types county and precinct, wide and default turnout-factor limits; one real get_estimates each, no "
+    "units (baseline+1 in {13,27,50,7}, partial counts 0 / small / huge / 1, so products are fractional), unit types county and precinct, wide and default turnout-factor limits, and (n = 3) the estimand pair [dem, turnout] with different swings in one run; one real get_estimates each, no "
     "features, no fixed effects. Oracle in exact rationals: m = w-weighted median of (counted-w)/w over the modelled reporting units; every outstanding "
     "unit's pred = max(round(w_i(1+m)), partial_i). Scenarios whose weighted median is not unique are counted and skipped. non-trivial = weighted and "
     "unweighted median differ, or the floor binds, or m<0"
@@ -38,6 +38,9 @@ def cases(tier, seed):
                 if tier == "quick" and n == 4 and ut == "county" and (i // 25) % 2:
                     continue
                 out.append({"combos": [[types[j] for j in c] for c in combos[i : i + 25]], "unit_type": ut, "limits": "wide" if (i // 25) % 3 else "default"})
+                if ut == "precinct" and (n == 3 or tier == "thorough"):
+                    # two vote-count estimands with different swings in the same run: each must follow its own median
+                    out.append({"combos": [[types[j] for j in c] for c in combos[i : i + 25]], "unit_type": ut, "limits": "wide", "estimands": ["dem", "turnout"]})
     return out
 
 
@@ -74,15 +77,19 @@ def evaluate(case):
     ut = case["unit_type"]
     for combo in case["combos"]:
         units = []
+        ests = case.get("estimands", ["turnout"])
         for i, (w, k) in enumerate(combo):
             counted = k * w // 10
             uid = f"AAc{i % 2}_r{i}" if ut == "precinct" else f"AA{i:03d}"
-            units.append(E.make_unit(uid, "AA", f"AAc{i % 2}" if ut == "precinct" else uid, "r", None, (w // 3, w // 3, w - 1), (counted // 2, counted // 3, counted), 100.0))
+            # dem swings by a different multiplier than turnout (only observable when dem is an estimand)
+            kd = MULT[(MULT.index(k) + 1 + i) % len(MULT)]
+            rdem = counted // 2 if len(ests) == 1 else min(counted, kd * (w // 3 + 1) // 10)
+            units.append(E.make_unit(uid, "AA", f"AAc{i % 2}" if ut == "precinct" else uid, "r", None, (w // 3, w // 3, w - 1), (rdem, (counted - rdem) // 2, counted), 100.0))
         for j, (w, partial) in enumerate([(13, 0), (27, 3), (50, 500), (7, 1)]):
             uid = f"AAc{j % 2}_n{j}" if ut == "precinct" else f"AA9{j:02d}"
             units.append(E.make_unit(uid, "AA", f"AAc{j % 2}" if ut == "precinct" else uid, "u", None, (w // 3, w // 3, w - 1), (partial // 2, partial // 3, partial), 40.0 if partial else 0.0))
         mp = {"turnout_factor_lower": 0.0, "turnout_factor_upper": 1000.0} if case["limits"] == "wide" else {}
-        cfg = E.make_cfg(estimands=["turnout"], alphas=[0.5], unit_type=ut, model_parameters=mp, aggregates=["postal_code", "unit"])
+        cfg = E.make_cfg(estimands=list(ests), alphas=[0.5], unit_type=ut, model_parameters=mp, aggregates=["postal_code", "unit"])
         res = E.run_estimates(units, cfg)
         runs += 1
         cats = R.categorize(units, cfg)
@@ -93,28 +100,34 @@ def evaluate(case):
                 continue
             viol("run-raised", f"combo={combo} {ut}: {res['error']}")
             continue
-        pairs = [(Fraction(u["r_turnout"] - (u["b_turnout"] + 1), u["b_turnout"] + 1), u["b_turnout"] + 1) for u in fit]
-        m = weighted_median(pairs)
-        if m is None:
-            cov["nonunique_median_skipped"] += 1
-            continue
-        um = sorted(p[0] for p in pairs)[(len(pairs) - 1) // 2] if len(pairs) % 2 else None
         rows = {r["geographic_unit_fips"]: r for r in E.tab_rows(res["ok"]["unit_data"])}
-        for u in units:
-            c = cats.get(u["id"])
-            if c is None or c["kind"] != "predict":
+        m = None
+        for est in ests:
+            pairs = [(Fraction(u[f"r_{est}"] - (u[f"b_{est}"] + 1), u[f"b_{est}"] + 1), u[f"b_{est}"] + 1) for u in fit]
+            m = weighted_median(pairs)
+            if m is None:
+                cov["nonunique_median_skipped"] += 1
                 continue
-            w = u["b_turnout"] + 1
-            x = w * (1 + m)
-            got = rows[u["id"]]["pred_turnout"]
-            partial = u["r_turnout"]
-            ok = (got == partial and x <= partial + Fraction(1, 2)) or (got >= partial and R.half_tolerant_round_ok(x, int(got)) and int(got) == got)
-            if got == partial and partial > 0 and x < partial:
-                cov["floor_binds"] += 1
-                nontrivial = True
-            if not ok:
-                viol("not-uniform-swing", f"combo={combo} {ut} limits={case['limits']}: unit {u['id']} w={w} partial={partial}: pred={got}, expected max(round({float(x):.6f}), {partial}) with weighted median m={m}")
-            cov["predictions_checked"] += 1
+            um = sorted(p[0] for p in pairs)[(len(pairs) - 1) // 2] if len(pairs) % 2 else None
+            if len(ests) > 1:
+                cov["two_estimand_medians"] += 1
+            for u in units:
+                c = cats.get(u["id"])
+                if c is None or c["kind"] != "predict":
+                    continue
+                w = u[f"b_{est}"] + 1
+                x = w * (1 + m)
+                got = rows[u["id"]][f"pred_{est}"]
+                partial = u[f"r_{est}"]
+                ok = (got == partial and x <= partial + Fraction(1, 2)) or (got >= partial and R.half_tolerant_round_ok(x, int(got)) and int(got) == got)
+                if got == partial and partial > 0 and x < partial:
+                    cov["floor_binds"] += 1
+                    nontrivial = True
+                if not ok:
+                    viol(f"not-uniform-swing:{est}" if len(ests) > 1 else "not-uniform-swing", f"combo={combo} {ut} limits={case['limits']} estimands={ests}: unit {u['id']} w={w} partial={partial}: pred_{est}={got}, expected max(round({float(x):.6f}), {partial}) with weighted median m={m}")
+                cov["predictions_checked"] += 1
+        if m is None:
+            continue
         if um is not None and um != m:
             cov["weighted_differs_from_unweighted"] += 1
             nontrivial = True
@@ -127,4 +140,4 @@ def evaluate(case):
     return {"violations": V, "cov": dict(cov), "outcome": sha(outs)[:16], "nontrivial": nontrivial, "transitions": runs}
 
 
-REQUIRED_COUNTERS = {"predictions_checked": 1000, "weighted_differs_from_unweighted": 50, "floor_binds": 100, "negative_swing": 100, "reporting_unit_excluded_from_fit": 20}
+REQUIRED_COUNTERS = {"predictions_checked": 1000, "weighted_differs_from_unweighted": 50, "floor_binds": 100, "negative_swing": 100, "reporting_unit_excluded_from_fit": 20, "two_estimand_medians": 200}
